@@ -1291,6 +1291,14 @@ def map_lookup(I, st, m, key, k_hit, k_miss, depth=0):
     go(0, st)
 
 
+@model(r'^(std::vec::)?Vec::<.*>::drain::<(std::ops::)?RangeFull>$', 'Vec::drain(..): an owning iterator over all elements; the vector is left empty')
+def m_vec_drain_all(I, st, c, args, cont, depth, site):
+    r, v = vec_at(I, st, args[0])
+    items = tuple(v.items)
+    I.write_ref(st, r, VecVal([], v.kind))
+    cont(st, IterVal('owned', None, 0, items=items))
+
+
 @model(r'^' + MAPTY + r'::<.*>::retain::<', 'map/set retain (the predicate is interpreted on every entry)')
 def m_map_retain(I, st, c, args, cont, depth, site):
     is_set = bool(re.search(r'(HashSet|BTreeSet)::<', c))
